@@ -35,20 +35,24 @@ CFG = {
         "thread Signal wakes and the receiver a send is handed to are free choices of the model (label parameters), so "
         "the theorems do not depend on FIFO wake order. AddReqAnyway/AddAnyway (sleep-and-retry loops around Add), "
         "WaitClose/WaitClear/TryClear (stop/clear channels) and SyncQueue.Len as an operation are outside the model "
-        "(Len and IsClosed are read only as observations at quiescent points). A consumer thread makes one pop call "
+        "(Len and IsClosed are read only as observations at quiescent points). For PriQueue the schedules also keep a "
+        "Push / Pop parked at the entry of its critical section (mutex held through the hook priq.VerifHold) and read "
+        "len(WaitCh()) at that moment (trace element PEMid: the model's token, nothing of the parked call has happened); "
+        "the monitor does not speak about that moment (a call is in progress). A consumer thread makes one pop call "
         "(thread = call). No axioms; no PENDING clause."
     ),
     "rule": (
         "one case = one forced schedule (3-20 batches of calls; a batch = up to 2 concurrent lanes of non-blocking calls "
         "plus newly launched consumers) on a fresh queue of one of the six types, run on the real implementation and "
         "replayed in Coq; generator classes per type: random walk, park-close, park-add, drain-after-close, bound, "
-        "close-race, steal, tryclose (condition-variable queues) and random, resignal, park-push, collapse, full "
-        "(PriQueue); thorough tier additionally enumerates every sequence of 1..5 single-call batches per "
+        "close-race, steal, tryclose (condition-variable queues) and random, resignal, park-push, collapse, full, "
+        "push-parked (PriQueue; a call held at the entry of its critical section through the hook); thorough tier additionally enumerates every sequence of 1..5 single-call batches per "
         "condition-variable type. Non-trivial = at some quiescent point at least one consumer was observed parked "
         "(PriQueue: parked on WaitCh() or holding a token); distinct = distinct resolved traces"
     ),
     "trusted": [
         "parked-goroutine detection: runtime.Stack(all) header wait reason `sync.Cond.Wait` with a frame of the queue's package (`select` inside main.c13WaitTok for PriQueue), matched to the consumer by goroutine id; flags are read before the snapshot",
+        "verif hook priq.VerifHold (queue/priq/zz_verif.go, build tag verif): takes the PriQueue's mutex like a concurrent Push/Pop inside its critical section and returns the release function; used to keep a Push / Pop parked at the entry of its critical section (seen as wait reason sync.Mutex.Lock under priq.(*PriQueue)) while len(WaitCh()) is read",
         "the Go transcription of the two LTSs and the witness search are NOT trusted (a wrong search can only fail to find a witness, which Coq's replay then rejects)",
         "Go runtime semantics of sync.Mutex, sync.Cond (Wait/Signal/Broadcast) and buffered channels as modelled",
     ],
